@@ -530,11 +530,72 @@ def direct_move_probe(res, hist, j):
         res.violation('C15.noraise', f'{guard.crash_site(e)}|direct-move', case, 'DOMException or success', repr(e)[:300], size=len(hist))
 
 
+# a selector that uses an undeclared prefix is rejected as a whole - also in the log-only mode every parse runs in, and wherever in the
+# selector the prefixed name stands
+UNDECLARED = ['q|a', 'q|a.b', 'q|a b', 'c q|a', 'c>q|a.b', 'c[q|t="1"]', 'c:not(q|a)', 'p|c q|a', 'c, q|a.b', 'q|*.b']
+UNDECLARED_CTX = ['%s{x:y}', '@namespace p "u";%s{x:y}', '@namespace p "u";@media all{%s{x:y}}', '@namespace p "u";@media all{@media print{%s{x:y}}}']
+
+
+def _all_style_rules(rules, out=None):
+    out = [] if out is None else out
+    for r in rules:
+        if r.type == R.STYLE_RULE:
+            out.append(r)
+        elif r.type == R.MEDIA_RULE:
+            _all_style_rules(r.cssRules, out)
+    return out
+
+
+def undeclared_case(res, case):
+    guard.pristine()
+    sel, ctx, how = case['selector'], case['context'], case['how']
+    res.evaluations += 1
+    res.transitions += 1
+    res.clauses['C15.undeclared-prefix'] += 1
+    try:
+        with guard.watchdog(20):
+            if how == 'parsed':
+                sheet = cssutils.parseString(UNDECLARED_CTX[ctx] % sel)
+                got = [r.selectorText for r in _all_style_rules(sheet.cssRules)]
+                want = []
+            else:
+                sheet = cssutils.parseString(UNDECLARED_CTX[ctx] % 'k')
+                rule = _all_style_rules(sheet.cssRules)[0]
+                want = ['k']
+                cssutils.log.raiseExceptions = how.endswith('raising')
+                try:
+                    if how.startswith('selectorText='):
+                        rule.selectorText = sel
+                    else:
+                        rule.selectorList.appendSelector(sel)
+                except xml.dom.DOMException:
+                    pass
+                finally:
+                    cssutils.log.raiseExceptions = True
+                got = [r.selectorText for r in _all_style_rules(sheet.cssRules)]
+    except guard.Timeout:
+        res.violation('C15.terminates', 'timeout|undeclared', case, 'answer', 'timeout')
+        return
+    except Exception as e:
+        res.violation('C15.noraise', f'{guard.crash_site(e)}|undeclared', case, 'DOMException or success', repr(e)[:300])
+        return
+    res.outcomes.add(h64(('undeclared', how, got == want)))
+    if got != want:
+        res.violation('C15.undeclared-prefix', f'selector-with-undeclared-prefix-accepted-in-part|{how}', case, want, got)
+
+
+def _undeclared_cases():
+    return [{'kind': 'undeclared', 'selector': s, 'context': c, 'how': h} for s in UNDECLARED for c in range(len(UNDECLARED_CTX))
+            for h in ('parsed', 'selectorText=,log-only', 'selectorText=,raising', 'appendSelector,log-only', 'appendSelector,raising')]
+
+
 def expand(batch, tier, seed):
     res = Result(seed)
     for hist in batch:
         hist = tuple(tuple(h) for h in hist)
         if not hist:
+            for case in _undeclared_cases():
+                undeclared_case(res, case)
             for i in range(len(SEEDS)):
                 h = (('seed', i),)
                 a, b, _ = build(h)
@@ -574,6 +635,11 @@ def run(ctx):
 
 
 def replay(case, tier, seed):
+    if case.get('kind') == 'undeclared':
+        res = Result(seed)
+        undeclared_case(res, case)
+        guard.pristine()
+        return res
     res = Result(seed)
     hist = tuple(tuple(h) for h in case['history'])
     if case.get('kind') == 'detached':
